@@ -199,13 +199,36 @@ def offset_table_sync(chk, prog, rule):
                     changed = True
                     break
     nw = 0
+    # a member that fills the offsets without rebuilding (a fetch helper) is judged at its call sites: it must have callers, all of them
+    # inside the family, and each call counts there as a change of the displacement field
+    fam_sigs = {f["sig"] for f in fns}
+    callers_of = {}
+    for g in prog.functions.values():
+        roots = ([g["body"]] if g.get("body") else []) + [i_["expr"] for i_ in g.get("inits", []) if isinstance(i_.get("expr"), dict)]
+        for r_ in roots:
+            for y in A.walk(r_):
+                if y.get("callee_sig") in fam_sigs:
+                    callers_of.setdefault(y["callee_sig"], set()).add(g["sig"])
+    helpers = set()
     for f in fns:
-        if f["name"] == "updateSM":
+        s = scans[f["sig"]]
+        if s is None or f["name"] == "updateSM" or f.get("kind") in ("ctor", "dtor") or f["sig"] in must:
+            continue
+        ws0 = offset_writes(s, owner_ctor=False)
+        has_sync = any((c.callee or "").endswith("::updateSM") or (c.sig or c.callee) in must for c in s.calls)
+        cs = callers_of.get(f["sig"], set())
+        if ws0 and not has_sync and cs and cs <= fam_sigs and not f.get("virtual"):
+            helpers.add(f["sig"])
+    for f in fns:
+        if f["name"] == "updateSM" or f["sig"] in helpers:
             continue
         s = scans[f["sig"]]
         if s is None:
             continue
         ws = offset_writes(s, owner_ctor=(f.get("kind") == "ctor" and f.get("class") == "vfps::KickMap"))
+        for c in s.calls:
+            if (c.sig or c.callee) in helpers:
+                ws = list(ws) + [(c.seq, c.line, c.guards, c.loops, "call of %s(), which fills _offset" % (c.callee or "").split("::")[-1])]
         if not ws:
             continue
         chk.used(f)
@@ -220,7 +243,18 @@ def offset_table_sync(chk, prog, rule):
                 # change to the exit runs through a rebuild call
                 try:
                     from .. import flow as Fl_
-                    g_ = Fl_.CFG(f)
+                    # (a rebuild skipped because the WHOLE field compares equal to what it was is still a rebuild wherever something changed:
+                    # such a test is resolved to "differs")
+                    def content_decide(c_):
+                        try:
+                            if _full_content_test(c_, True):
+                                return True
+                            if _full_content_test(c_, False):
+                                return False
+                        except Exception:
+                            pass
+                        return None
+                    g_ = Fl_.CFG(f).pruned(content_decide)
                     wnode = [y for y in A.walk(f["body"]) if y.get("line") == line and (y.get("k") in ("BinaryOperator", "CompoundAssignOperator", "CallExpr", "CXXMemberCallExpr", "CXXOperatorCallExpr"))]
                     pos = None
                     for y in wnode:
